@@ -180,13 +180,50 @@ def count_groups(items):
     return n
 
 
+def subject_language(I, s):
+    """regular language known to contain the subject: literal pieces and pieces whose language the
+    formatting model recorded; None when some piece is unknown"""
+    ann = I.__dict__.get("str_lang", {})
+    s = S(s)
+    pieces = list(s.children()) if (z3.is_app(s) and s.decl().kind() == z3.Z3_OP_SEQ_CONCAT) else [s]
+    out = []
+    for p in pieces:
+        if z3.is_string_value(p):
+            out.append(z3.Re(p))
+        elif p.get_id() in ann and ann[p.get_id()][0].eq(p):
+            out.append(ann[p.get_id()][1])
+        else:
+            return None
+    return z3.Concat(*out) if len(out) > 1 else out[0]
+
+
+def regex_empty(r):
+    x = z3.String("re_probe")
+    s = z3.Solver()
+    s.set("timeout", 5000)
+    s.add(z3.InRe(x, r))
+    return s.check() == z3.unsat
+
+
 def match_symbolic(I, pat, s):
     """re.match(pat, <symbolic str s>): forks on membership; returns None or the
     list of group values (top-level groups only)."""
     items, anchored = parse(pat)
     lang = language(pat)
     P = I.prover
-    if not P.fork(z3.InRe(s, lang)):
+    subj = subject_language(I, s)
+    decided = None
+    if subj is not None:
+        # decide at the language level: every text the subject can be matches / no such text matches
+        if regex_empty(z3.Intersect(subj, z3.Complement(lang))):
+            decided = True
+        elif regex_empty(z3.Intersect(subj, lang)):
+            decided = False
+    if decided is False:
+        return None
+    if decided is True:
+        P.assume(z3.InRe(s, lang))
+    elif not P.fork(z3.InRe(s, lang)):
         return None
     if count_groups(items) == 0:
         return []
